@@ -40,7 +40,7 @@ na=[{"property_id":p["id"],"reason":"check under construction (DESIGN.md section
 m={"version":1,"setup_cmd":"./setup.sh",
  "hooks":{"guard":"verif","enable":"go build -race -tags verif (hook files are //go:build verif; without the tag the hook calls are empty inlinable functions)",
   "baseline_off_cmd":"for m in . ./caddy; do (cd /repo/$m && GOFLAGS=-mod=mod go test -json -vet=off -count=1 -timeout 25m ./...); done",
-  "source_commits":["f558240","c289078","fbd7757","6a0942f"],"add_only":True},
+  "source_commits":["f558240","c289078","fbd7757","6a0942f","e01d385"],"add_only":True},
  "engines":[{"name":"verifharness","path":"/verif/harness","serves_properties":sorted(CLAIMED),"kind_free_text":"Go harness built -race -tags verif against /repo: driver + one child process per batch in a private network namespace; monitors at sockets, metrics interfaces, conn wrappers, goroutine/fd tables; race detector"}],
  "checks":checks,"not_applicable":na,
  "notes":"All checks: ./check <id> <quick|thorough>; VERIF_SEED selects the PRNG seed; --replay <file> re-runs the batch that produced a witness."}
